@@ -346,7 +346,6 @@ def impulses(ck):
         shapes = list(itertools.product(range(1, 6), repeat=3)) + list(itertools.product((6, 7, 8), repeat=3))
         affs = [np.diag([1, 1, 1]), np.diag([1, -2, 0.5]), np.array(OBLIQUE[0], float), np.array(OBLIQUE[3], float)]
         fw = [0.75, 2.0, 6.0, 40.0]
-        big_affs, big_fw = affs[1:3], [2.0, 6.0, 40.0]       # grids in {6,7,8}^3: fewer (affine, fwhm) combinations
     else:
         shapes = list(itertools.product(range(1, 4), repeat=3)) + [(4, 5, 2), (8, 3, 2), (5, 4, 4), (2, 2, 7), (6, 6, 1)]
         affs = [np.diag([1, 1, 1]), np.diag([1, -2, 0.5]), np.array(OBLIQUE[0], float)]
@@ -354,11 +353,8 @@ def impulses(ck):
     shapes = sorted(set(shapes), key=lambda s: (s[0] * s[1] * s[2], s))
     nimp = 0
     for shape in shapes:
-        big = ck.thorough() and max(shape) > 5
         for ai, A3 in enumerate(affs):
             for fwhm in fw:
-                if big and not (any(A3 is b for b in big_affs) and fwhm in big_fw):
-                    continue
                 c = observe(ck, A3, (0, 0, 0), shape, fwhm)
                 off_model = [c.ck[i] - c.k[i] // 2 for i in range(3)]
                 for p0 in itertools.product(*[range(n) for n in shape]):
